@@ -1556,28 +1556,46 @@ package p9
 
 // sendRecv transmits tm and fills rm from the reply of the same type, or
 // returns the server's errno / a transport error (body: see C10 section).
-//@ func (*Client).sendRecv
-//@   abstract
-//@   modifies implsof(message), arrays(byte), arrays(string), arrays(QID), arrays(Dirent), $lasterr
-//@   ghost set $lasterr:error = result
 //@ func (*Client).newFile
 //@   abstract
 //@   fresh
 //@   ensures result != nil && result.client == c && result.fid == fid && result.closed == 0
+// pool (C10): cached values are ones handed out before (1 <= v < start), start
+// never passes the limit, which is the sentinel (NOTAG / NOFID) itself.
+//@ define Ipool(p *pool) bool = 1 <= p.start && p.start <= p.limit && forall(i, 0, len(p.cache), 1 <= p.cache[i] && p.cache[i] < p.start)
+//@ define outstanding(p *pool, v uint64) bool = 1 <= v && v < p.start && forall(i, 0, len(p.cache), p.cache[i] != v)
 //@ func (*pool).Get
-//@   abstract
-//@   modifies p.cache, p.start, arrays(uint64), $got
+//@   requires[C10,C15,C16] held(p.mu) == 0
+//@   requires Ipool(p)
+//@   modifies p.cache, p.start, $got
 //@   ghost set $got:uint64 = result0
-//@   ensures[C10] result1 ==> result0 < p.limit
+//@   ghost set $gotok:bool = result1
+//@   ensures[C10] @invariant Ipool(p)
+//@   ensures[C10] @never-the-sentinel-or-zero result1 ==> 1 <= result0 && result0 < p.limit
+//@   ensures[C10] @not-outstanding-before result1 ==> !old(outstanding(p, result0))
+//@   ensures[C10] @exhausted-only-at-the-limit !result1 ==> p.start == p.limit && len(p.cache) == 0 && p.start == old(p.start)
+//@   ensures[C15,C16] samelocks()
+//@   safety[C10]
+//@   nopanic
 //@ func (*pool).Put
-//@   abstract
+//@   requires[C10,C15,C16] held(p.mu) == 0
+//@   requires Ipool(p)
+//@   requires @returns-only-what-was-handed-out 1 <= v && v < p.start
 //@   modifies p.cache, arrays(uint64)
+//@   ensures[C10] @invariant Ipool(p)
+//@   ensures[C10] @limits-unchanged p.start == old(p.start) && p.limit == old(p.limit)
+//@   ensures[C15,C16] samelocks()
+//@   nopanic
 //@ ghostvar $got uint64
+//@ ghostvar $gotok bool
 //@ inline versionSupportsTucreation, versionSupportsTwalkgetattr
 
 //@ group clientMethod
 //@   modifies *
+//@   ensures[C03,C10] @handles-keep-their-client forall(h, *clientFile, h.client == old(h.client))
 //@   requires[C03,C10] c.client != nil
+//@   requires[C10,C15,C16] nolocks()
+//@   ensures[C10,C15,C16] nolocks()
 //@ func (*clientFile).StatFS
 //@   use clientMethod
 //@   ensures[C03] @closed-handle-ebadf old(c.closed) != 0 ==> errIs(result1, linux.EBADF) && ncalls("(*Client).sendRecv") == 0
@@ -1741,6 +1759,7 @@ package p9
 //@   ensures[C10] @at-most-one-release ncalls("(*pool).Put") <= 1
 //@ func (*clientFile).readAt
 //@   use clientMethod
+//@   requires[C13] @request-and-reply-fit-msize len(p) <= int(c.client.payloadSize)
 //@   ensures[C03,C11] @closed-handle-ebadf old(c.closed) != 0 ==> errIs(result1, linux.EBADF) && ncalls("(*Client).sendRecv") == 0
 //@   at (*Client).sendRecv requires[C03,C11,C13] @one-tread-for-the-whole-chunk typeis(arg0, *tread) && unbox(arg0, *tread).fid == c.fid && unbox(arg0, *tread).Offset == uint64(offset) && unbox(arg0, *tread).Count == uint32(len(p)) && typeis(arg1, *rread) && unbox(arg1, *rread).Data == p
 //@   ensures[C11] @one-request old(c.closed) == 0 ==> ncalls("(*Client).sendRecv") == 1
@@ -1749,6 +1768,7 @@ package p9
 //@   ensures[C11] @eof-only-for-empty-reply old(c.closed) == 0 && result1 == io.EOF && ghost("$lasterr", error) == nil ==> result0 == 0 && len(p) > 0
 //@ func (*clientFile).writeAt
 //@   use clientMethod
+//@   requires[C13] @request-fits-msize len(p) <= int(c.client.payloadSize)
 //@   ensures[C03,C11] @closed-handle-ebadf old(c.closed) != 0 ==> errIs(result1, linux.EBADF) && ncalls("(*Client).sendRecv") == 0
 //@   at (*Client).sendRecv requires[C03,C11,C13] @one-twrite-for-the-whole-chunk typeis(arg0, *twrite) && unbox(arg0, *twrite).fid == c.fid && unbox(arg0, *twrite).Offset == uint64(offset) && unbox(arg0, *twrite).Data == p
 //@   ensures[C11] @one-request old(c.closed) == 0 ==> ncalls("(*Client).sendRecv") == 1
@@ -1792,3 +1812,36 @@ package p9
 //@   loop 1 invariant[C12,C13] c != nil && c.messageSize > msgDotLRegistry.largestFixedSize && c.payloadSize >= 1 && c.payloadSize <= c.messageSize - msgDotLRegistry.largestFixedSize
 //@   loop 1 invariant[C12,C13] msgDotLRegistry.largestFixedSize >= 23 && msgDotLRegistry.largestFixedSize < 4096 && requested <= highestSupportedVersion
 //@   loop 1 decreases[C12] int(requested)
+
+//@ func (*clientFile).xattrWalkRead
+//@   use clientMethod
+//@   requires[C13] c.client.payloadSize >= 1
+//@   at (*Client).sendRecv requires[C03] @txattrwalk-carries-the-arguments typeis(arg0, *txattrwalk) && unbox(arg0, *txattrwalk).fid == c.fid && unbox(arg0, *txattrwalk).Name == attr && unbox(arg0, *txattrwalk).newFID == fid(ghost("$got", uint64))
+//@   at (*pool).Put requires[C10] @fid-released-only-when-the-binding-was-refused ghost("$lasterr", error) != nil && arg0 == ghost("$got", uint64)
+//@   at (*Client).newFile requires[C10] @handle-only-for-a-bound-fid ghost("$lasterr", error) == nil && arg0 == fid(ghost("$got", uint64))
+//@ func (*clientFile).GetXattr
+//@   use clientMethod
+//@   requires[C13] c.client.payloadSize >= 1
+//@ func (*Client).Attach
+//@   modifies *
+//@   requires[C10,C15,C16] nolocks()
+//@   at (*Client).sendRecv requires[C03] @tattach-carries-the-arguments typeis(arg0, *tattach) && unbox(arg0, *tattach).fid == fid(ghost("$got", uint64)) && unbox(arg0, *tattach).Auth.AttachName == name && unbox(arg0, *tattach).Auth.Authenticationfid == noFID
+//@   at (*pool).Put requires[C10] @fid-released-only-when-the-binding-was-refused ghost("$lasterr", error) != nil && arg0 == ghost("$got", uint64)
+//@   at (*Client).newFile requires[C10] @handle-only-for-a-bound-fid ghost("$lasterr", error) == nil && arg0 == fid(ghost("$got", uint64))
+
+// ---- sendRecv (C10) ------------------------------------------------------------------
+//@ func (*Client).waitAndRecv
+//@   abstract
+//@   modifies implsof(message), arrays(byte), arrays(string), arrays(QID), arrays(Dirent), mapof(c.pending), type:response.r
+//@ func (*Client).sendRecv
+//@   modifies *
+//@   requires[C10,C15,C16] nolocks()
+//@   ghost set $lasterr:error = result
+//@   at send requires[C10,C06] @frames-are-contiguous held(c.sendMu) == -1
+//@   at send requires[C10] @registered-before-sending has(c.pending, arg2) && c.pending[arg2] == resp && arg2 == tag(ghost("$got", uint64))
+//@   at send requires[C10,C03] @sends-the-callers-request arg3 == tm
+//@   at (*pool).Put requires[C10] @tag-returned-once-and-only-its-own arg0 == ghost("$got", uint64) && ncalls("(*pool).Put") == 0
+//@   at (*Client).waitAndRecv requires[C10] @waits-on-its-own-slot arg0 == resp.done && ncalls("send") == 1
+//@   ensures[C10] @tag-always-returned ncalls("(*pool).Get") == 1 && ghost("$gotok", bool) ==> ncalls("(*pool).Put") == 1
+//@   ensures[C10] @no-stale-pending-entry ncalls("send") == 1 && ncalls("(*Client).waitAndRecv") == 0 ==> !has(c.pending, tag(ghost("$got", uint64)))
+//@   ensures[C15,C16] nolocks()
